@@ -87,3 +87,10 @@ def search(ctx):
 def replay(ctx, case):
     from harness.props import c10_eval
     return c10_eval.replay(ctx, case)
+
+
+MANIFEST = dict(
+    text='Proof (FULL over Z for QSD): the estimate functions, regenerated from qclib/unitary.py on every run, equal the counts of the synthesis recursion for all n>=3: QSD with A.1/A.2 and without A.2 (C10_qsd_a2_estimate, C10_qsd_noa2_estimate, closed forms of the recurrence), the recursive isometry-mode count agrees at iso=0 (C10_iso0_consistent), CSD closed form. Tie: translator, validated by executing every translated function against CPython on a grid; the skeleton is tied to real circuits by comparing with transpiled cx counts (direct evaluation).',
+    note='Modelled, not verified: per-primitive CX costs (measured, not proved); Qiskit transpile as counting oracle; CCD/Knill/low-rank estimates evaluated only.',
+    technique='Coq proof (induction, lia/ring over Z) on translator-regenerated definitions + translation validation by execution + transpiled-count evaluation',
+    design_ref='DESIGN.md section 4, C10')
